@@ -898,10 +898,26 @@ func srvGoneClient(o *common.Out, id string, pool, wt bool, style string) {
 // runs for it, and the connection is closed - whatever was refused on it before.  Oracle only.
 // case: refauth|<one-way>|<ordinary request in between>
 func srvRefusedThenAuth(o *common.Out, id string, ow, between bool) {
+	srvRefusedThenAuthOn(o, id, ow, between, "")
+}
+
+// opt: "" (defaults), "pool" (worker pool), "async" (asynchronous writes), "none" (nothing refused before: the failed
+// authentication is the first thing on the connection)
+func srvRefusedThenAuthOn(o *common.Out, id string, ow, between bool, opt string) {
 	abstract := fmt.Sprintf("refauth|%v|%v", ow, between)
+	if opt != "" {
+		abstract += "|" + opt
+	}
 	o.Begin(id, abstract)
 	o.Count("refused-then-failed-authentication")
-	rig := newSrvRig(false)
+	var sopts []server.OptionFn
+	switch opt {
+	case "pool", "none-pool":
+		sopts = append(sopts, server.WithPool(4, 64))
+	case "async":
+		sopts = append(sopts, server.WithAsyncWrite())
+	}
+	rig := newSrvRig(false, sopts...)
 	rig.start()
 	defer rig.stop()
 	peer, err := rig.connect()
@@ -922,10 +938,12 @@ func srvRefusedThenAuth(o *common.Out, id string, ow, between bool) {
 		}
 		return f
 	}
-	peer.send(reqSpec{seq: 51, path: "Arith", method: "Mul", ser: 1, oneway: ow, payload: body(0),
-		meta: []refcodec.KV{{K: []byte("x-limit"), V: []byte("1")}, {K: []byte("rid"), V: []byte("0")}}})
-	if !ow && want(51, "the rate-limited request") == nil {
-		return
+	if !strings.HasPrefix(opt, "none") {
+		peer.send(reqSpec{seq: 51, path: "Arith", method: "Mul", ser: 1, oneway: ow, payload: body(0),
+			meta: []refcodec.KV{{K: []byte("x-limit"), V: []byte("1")}, {K: []byte("rid"), V: []byte("0")}}})
+		if !ow && want(51, "the rate-limited request") == nil {
+			return
+		}
 	}
 	if between {
 		peer.send(reqSpec{seq: 52, path: "Arith", method: "Mul", ser: 1, payload: body(1), meta: []refcodec.KV{{K: []byte("rid"), V: []byte("1")}}})
@@ -937,10 +955,30 @@ func srvRefusedThenAuth(o *common.Out, id string, ow, between bool) {
 	before := invoked()
 	peer.send(reqSpec{seq: 53, path: "Arith", method: "Mul", ser: 1, payload: body(2),
 		meta: []refcodec.KV{{K: []byte(share.AuthKey), V: []byte("deny")}, {K: []byte("rid"), V: []byte("2")}}})
-	if f := want(53, "the request that failed authentication"); f == nil {
+	// the requester gets the authentication error - or, when the error is written asynchronously and loses against the
+	// closing of the connection, just the closed connection; never a result
+	var f *refcodec.Frame
+	select {
+	case f = <-peer.frames:
+	case <-peer.closed:
+		select {
+		case f = <-peer.frames:
+		default:
+		}
+	case <-time.After(3 * time.Second):
+	}
+	if f != nil {
+		if binary.BigEndian.Uint64(f.Header[4:]) != 53 || f.Header[2]&0x03 != 1 {
+			o.Fail(id, "result-for-rejected", "a request that failed authentication was answered with something else than its error", abstract)
+		}
+	} else if opt != "async" {
+		select {
+		case <-peer.closed:
+			o.Fail(id, "no-response", "the request that failed authentication: the connection was closed without the error having been written (synchronous writes)", abstract)
+		default:
+			o.Fail(id, "no-response", "the request that failed authentication: not answered", abstract)
+		}
 		return
-	} else if f.Header[2]&0x03 != 1 {
-		o.Fail(id, "result-for-rejected", "a request that failed authentication was answered with a result", abstract)
 	}
 	select {
 	case <-peer.closed:
@@ -1313,7 +1351,11 @@ func runSrv(prop string, r *common.Rand, tier string, o *common.Out, replay stri
 	}
 	if strings.HasPrefix(replay, "refauth|") {
 		p := strings.Split(replay, "|")
-		srvRefusedThenAuth(o, "replay", p[1] == "true", p[2] == "true")
+		opt := ""
+		if len(p) > 3 {
+			opt = p[3]
+		}
+		srvRefusedThenAuthOn(o, "replay", p[1] == "true", p[2] == "true", opt)
 		return
 	}
 	if replay == "" && prop == "C04" {
@@ -1322,6 +1364,10 @@ func runSrv(prop string, r *common.Rand, tier string, o *common.Out, replay stri
 			for _, between := range []bool{false, true} {
 				k++
 				srvRefusedThenAuth(o, fmt.Sprintf("refauth%d", k), ow, between)
+				for _, opt := range []string{"pool", "async", "none", "none-pool"} {
+					k++
+					srvRefusedThenAuthOn(o, fmt.Sprintf("refauth%d", k), ow, between, opt)
+				}
 			}
 		}
 	}
